@@ -12,6 +12,7 @@
 -/
 import Dirk.Lemmas.DkgAlgebra
 import Dirk.Lemmas.DkgLife
+import Dirk.Lemmas.DkgSuccess
 
 namespace Dirk.Dkg
 open Polynomial
@@ -55,5 +56,27 @@ theorem C12_protocol_success (npeers n t : ℕ) (hn : 2 ≤ n) (hb : generateAcc
   have h1 : ¬ n = 1 := by omega
   have h2 : ¬ n > npeers := by omega
   simp [hb, h1, h2]
+
+/-- **C12 (protocol, message level, fault-free).** On a fresh cluster whose instances are the
+    participants (distinct non-zero ids, all configured peers), for an account name in a distributed
+    wallet and ANY threshold: every `Prepare` is accepted; the `Execute`s, in ANY order, are all accepted
+    and leave every participant holding a contribution from every participant; every `Commit` is then
+    accepted, and afterwards every participant holds the account and no generation for it remains.
+    (What the contributions are worth — that the shares are consistent, any `t` recover the key and fewer
+    cannot — is `C12_share_consistent` / `C12_recover` / `C12_fewer_fail` over an arbitrary field.) -/
+theorem C12_generation_succeeds (parts peers order : List Nat) (timeout now : Nat) (acct : String)
+    (t init : Nat) (hnd : parts.Nodup) (hnz : ∀ i ∈ parts, i ≠ 0) (hpeers : ∀ i ∈ parts, i ∈ peers)
+    (hlen : 2 ≤ parts.length) (hdw : distributedWallet acct = true) (hinit : init ∈ parts)
+    (horder : order.Perm parts) :
+    let c0 := freshCluster parts peers timeout now
+    let p := prepareAll c0 init acct t parts parts
+    let e := executeAll p.1 init acct order
+    let m := commitAll e.1 init acct parts
+    p.2 = List.replicate parts.length Reply.ok ∧
+    e.2 = List.replicate parts.length Reply.ok ∧
+    m.2 = List.replicate parts.length Reply.ok ∧
+    ∀ i ∈ parts, ∃ x, getInst m.1 i = some x ∧ acct ∈ x.accounts ∧ x.sessions.lookup acct = none := by
+  have h := generation_succeeds_fresh parts peers order timeout now acct t init hnd hnz hpeers hlen hdw hinit horder
+  exact ⟨h.1, h.2.1, h.2.2.2.1, h.2.2.2.2⟩
 
 end Dirk.Dkg
